@@ -178,7 +178,11 @@ fn pair_case(g: &mut Sm) -> String {
     let poly = g.chance(0.7);
     let delta = 10f64.powf(g.range(-13., -1.)) * if g.chance(0.5) { 1. } else { -1. };
     let common = if g.chance(0.5) {
-        format!(" common={}:{}:{}:{}", fmt_f(g.range(0., 2. * PI)), fmt_f(g.range(-3., 3.)), fmt_f(g.range(-3., 3.)), g.below(2))
+        // (some motions carry the pair far from the origin: the answer may not depend on where the pair is)
+        // (discs up to 3e5 away; polygons up to 3e3: the edge test multiplies coordinates, beyond that its rounding error
+        //  reaches the 1e-9 the separation is judged by)
+        let far = if g.chance(0.15) { if poly { *g.pick(&[1e2, 1e3]) } else { *g.pick(&[1e3, 1e4, 1e5]) } } else { 1. };
+        format!(" common={}:{}:{}:{}", fmt_f(g.range(0., 2. * PI)), fmt_f(g.range(-3., 3.) * far), fmt_f(g.range(-3., 3.) * far), g.below(2))
     } else {
         String::new()
     };
@@ -452,6 +456,12 @@ pub fn gen(focus: &str, seed: u64, count: u64) -> Vec<String> {
         let body = if focus == "C14" && body.contains(" k=") && !body.contains("mode=") && g.chance(0.08) {
             let k = *g.pick(&[-1i64, -1, -2, -7, 7, 25]);
             body.split(' ').map(|t| if t.starts_with("k=") { format!("k={}", k) } else { t.to_string() }).collect::<Vec<_>>().join(" ")
+        } else { body };
+        // C11: cells a file can describe but the optimiser never reaches: nearly degenerate, obtuse, reflex and negative
+        // angles (what is drawn must still be the structure)
+        let body = if focus == "C11" && body.contains(" angle=") && !body.contains("mode=") && !body.contains("family=") && g.chance(0.06) {
+            let a = *g.pick(&[1e-6, 1e-9, 3.0, 2.2, 4.0, 5.5, -0.7, 3.141592653589793]);
+            body.split(' ').map(|t| if t.starts_with("angle=") { format!("angle={}", fmt_f(a)) } else { t.to_string() }).collect::<Vec<_>>().join(" ")
         } else { body };
         // C11: structures at very small and very large length scales (what is written must be the structure, not a tidied one)
         let body = if focus == "C11" && body.contains(" len=") && !body.contains("mode=") && g.chance(0.08) {
